@@ -44,12 +44,12 @@ PROPS = {
         level_text="Deductive proof (Verus/z3) that when the inner value of an append-on-drop entry is dropped, the entry as it stands at that moment (every mutation made through the owner) is taken, closed and appended to the sink "
                    "exactly once and is gone afterwards. BOUNDED check (Kani/CBMC on the real code, never counted as proved): for each of the 24 orders in which a parent, two flush guards and one force-flush guard can be dropped on one thread, "
                    "after every step the inner value has been dropped exactly when the parent has been dropped and (both flush guards or the force-flush guard) have been dropped, and it is dropped at most once (quick tier: 4 orders, thorough: all 24). "
-                   "NOT decided: drops on different threads (the property's schedule quantifier), cloned handles (AppendAndCloseOnDropHandle), more than two flush guards.",
+                   "NOT decided: drops on different threads (the property's schedule quantifier), cloned handles (AppendAndCloseOnDropHandle), more than two flush guards. The owner's constructors: append_and_close puts the entry and the sink into the keep-alive owner; flush_guard / force_flush_guard return guards of THIS entry's keep-alive.",
         level_note="Trusted: Verus + z3; CBMC and Kani's model of Arc / Mutex / Box<dyn FnOnce>. Drop::drop is verified as an inherent method (type invariant 'the entry is present until drop' as precondition); RootEntry is declared without its "
                    "`M: InflectableEntry` bound in the unit (type level only: this Verus loses the associated-type bound that makes RootMetric<E> well-formed).",
         explanation="append-on-drop: terminal step (proof) and keep-alive drop orders (bounded)",
         assumptions=["EntrySink::append hands the entry to the sink once per call", "sequential drop orders stand in for cross-thread ones (Arc / Mutex are linearizable)"],
-        unreached=["AppendAndCloseOnDropHandle (Arc of the owner)", "flush_guard / force_flush_guard / handle wrappers (one-line constructors)", "cross-thread interleavings"],
+        unreached=["AppendAndCloseOnDropHandle (Arc of the owner: the owner is dropped when the last clone goes - std Arc)", "cross-thread interleavings"],
     ),
     "C08": dict(
         # emf_fresh: the per-name / per-record automata of the validation functions start from the empty maps that
